@@ -56,7 +56,7 @@ fn apply(img: &mut Vec<u8>, w: &W, ranges: Option<&[(usize, usize)]>) {
 }
 
 pub fn gen_workloads(ctx: &Ctx, rng: &mut Rng) -> Vec<Workload> {
-    let n = ctx.scale(if ctx.thorough() { 40 } else { 3 });
+    let n = ctx.scale(if ctx.thorough() { 8 } else { 3 });
     let mut v = Vec::new();
     for i in 0..n {
         let profile = *rng.pick(&[4u8, 1, 3, 0, 4]);
@@ -368,7 +368,7 @@ fn analyse(
                     if has_header && has_data {
                         st.segments_with_header_and_data_pending += 1;
                     }
-                    let (subs, _ex) = subsets(n, rng, if thorough { 1024 } else { 48 });
+                    let (subs, _ex) = subsets(n, rng, if thorough { 256 } else { 48 });
                     let base_len = (len_now as usize).max(durable.len());
                     for (si, s) in subs.iter().enumerate() {
                         let mut img = durable.clone();
@@ -383,7 +383,7 @@ fn analyse(
                         st.power_images += 1;
                         test_image!(&img, ImageRecipe { commit: k, kind: format!("power-loss:subset {} of {} pending writes", applied.len(), n), applied: applied.clone(), pending: n, file_len: img.len() as u64 }, prev, new, false);
                         // sector-torn variant of one chosen write, on a sample of the subsets
-                        if !applied.is_empty() && (si % 5 == 0 || thorough) {
+                        if !applied.is_empty() && (si % 5 == 0 || (thorough && si % 2 == 0)) {
                             let (wi, _) = applied[rng.usize(applied.len())].clone();
                             let w = &pending[wi];
                             let sectors = (w.data.len() + 511) / 512;
@@ -413,12 +413,12 @@ fn analyse(
                     if let Some(hi) = pending.iter().position(|w| (w.off as usize) < 2 * ps) {
                         let hw = pending[hi].clone();
                         let words = 13usize; // page header (4 words) + record (9 words)
-                        let masks: Vec<u32> = if thorough {
+                        let masks: Vec<u32> = if thorough && k < 2 {
                             (0..(1u32 << words)).collect()
                         } else {
                             let mut m: Vec<u32> = (0..=words as u32).map(|p| (1u32 << p) - 1).collect(); // prefixes
                             m.extend((0..=words as u32).map(|p| ((1u32 << words) - 1) & !((1u32 << p) - 1))); // suffixes
-                            for _ in 0..40 {
+                            for _ in 0..(if thorough { 300 } else { 40 }) {
                                 m.push(rng.below(1 << words) as u32);
                             }
                             m
